@@ -8,7 +8,7 @@ import c04
 
 UNLINK_RX = r"fs::(remove_file|remove_dir|remove_dir_all|rename|hard_link|copy)$|FileExt::allocate$"
 CLOSED = lambda e: is_field(e, "closed")
-REMOVED = lambda e: is_field(e, "removed_chunks")
+REMOVED = lambda e: is_field_nt(e, "removed_chunks")
 SEND_RX = r"mpsc::SyncSender::<T>::(send|try_send)$|mpsc::Sender::<T>::send$"
 NEXT_RX = r"iter::Iterator>?::next$"
 
@@ -205,11 +205,12 @@ def r08_2(ctx, rep):
             rep.ok("R08.2", "send(RemoveChunks)", "dominated by the Ok edge of send(Write{sync})", where=g.where(n))
         paths = strip_ids(wr[3][0]) if wr[3] else None
         # collect(drain(removed_chunks, ..))
-        ok = paths is not None and contains(paths, lambda x: call_is(x, r"Vec::<T, A>::drain$") and REMOVED(call_arg(x, 0))
-                                            and isinstance(call_arg(x, 1), tuple) and call_arg(x, 1)[0] == "agg"
-                                            and "RangeFull" in str(call_arg(x, 1)[1]))
+        ok = paths is not None and contains(paths, lambda x: (call_is(x, r"Vec::<T, A>::drain$") and REMOVED(call_arg(x, 0))
+                                                              and isinstance(call_arg(x, 1), tuple) and call_arg(x, 1)[0] == "agg"
+                                                              and "RangeFull" in str(call_arg(x, 1)[1]))
+                                            or (call_is(x, r"mem::(take|replace)$") and REMOVED(call_arg(x, 0))))
         if ok:
-            rep.ok("R08.2", "RemoveChunks payload", "collect(removed_chunks.drain(..))", where=g.where(n))
+            rep.ok("R08.2", "RemoveChunks payload", "the whole removed_chunks list (drain(..) / mem::take)", where=g.where(n))
         else:
             rep.violation("R08.2", "flush|RemoveChunks-payload", "RemoveChunks payload",
                           "the removal request does not carry the complete drained removed_chunks list: %s" % expr_s(paths)[:100],
@@ -257,7 +258,7 @@ def r08_2(ctx, rep):
                 continue
             nm = cpath(g2.term(n)).split("::")[-1]
             op = short_key(key2).split("::")[-1]
-            if (nm == "push" and op == "purge") or (nm == "drain" and op == "flush"):
+            if (nm == "push" and op == "purge") or (nm in ("drain", "take", "replace") and op == "flush"):
                 rep.ok("R08.2", "removed_chunks.%s in %s" % (nm, op), "", where=g2.where(n), nontrivial=False)
             else:
                 rep.violation("R08.2", "%s|removed_chunks.%s" % (op, nm), "removed_chunks.%s" % nm,
